@@ -44,8 +44,29 @@ func orphanedByLockedLeaves(r *simRing) bool {
 		}
 		found = true
 		for _, s := range m.Node.VerifSuccessors() {
-			dep := r.members[s.ID()]
-			if dep == nil || dep.Crashed() || dep.Node.VerifState() != chord.Left || !leftThroughLockedLeave(dep) {
+			// every incarnation of that id (a departed node may have been restarted since, and the
+			// restart may have failed): some incarnation left through a locked leave, none crashed
+			var incarnations []*ringsim.Member
+			memberMapMu.Lock()
+			if cur := r.members[s.ID()]; cur != nil {
+				incarnations = append(incarnations, cur)
+			}
+			for _, old := range r.retired {
+				if old.ID == s.ID() {
+					incarnations = append(incarnations, old)
+				}
+			}
+			memberMapMu.Unlock()
+			proper := false
+			for _, dep := range incarnations {
+				if dep.Crashed() {
+					return false
+				}
+				if dep.Node.VerifState() == chord.Left && leftThroughLockedLeave(dep) {
+					proper = true
+				}
+			}
+			if !proper {
 				return false
 			}
 		}
